@@ -140,7 +140,7 @@ def main():
     return out
 
 
-if __name__ == '__main__':
+if __name__ == "__main__":
     try:
         o = main()
     except Exception as ex:
